@@ -157,3 +157,83 @@ package http2
 //@   ensures [C19:pp-pad-too-big] fh.StreamID != 0 && len(p) >= hPad(fh) + 4 && hPadLen(fh, p) > len(p) - hPad(fh) - 4 ==> isConnErr(err, 1)
 //@   ensures [C19:pp-ok] fh.StreamID != 0 && len(p) >= hPad(fh) + 4 && hPadLen(fh, p) <= len(p) - hPad(fh) - 4 ==> err == nil && isptr(PushPromiseFrame, f) && unboxptr(PushPromiseFrame, f) != nil && val(unboxptr(PushPromiseFrame, f).FrameHeader) == fh && unboxptr(PushPromiseFrame, f).PromiseID == be32(p[hPad(fh):]) % 2147483648 && unboxptr(PushPromiseFrame, f).headerFragBuf == p[hPad(fh)+4 : len(p)-hPadLen(fh, p)]
 //@   ensures [C19:error-no-frame] err != nil ==> f == nil
+
+//@ -- SETTINGS --------------------------------------------------------------------------
+//@ pure func settingID(p seq[byte], i int) int = p[i*6]*256 + p[i*6+1]
+//@ pure func settingVal(p seq[byte], i int) int = p[i*6+2]*16777216 + p[i*6+3]*65536 + p[i*6+4]*256 + p[i*6+5]
+//@ -- index of the first setting with the given id among the first n, or -1
+//@ pure func firstSetting(p seq[byte], id int, n int) int = ite(n <= 0, -1, ite(firstSetting(p, id, n-1) >= 0, firstSetting(p, id, n-1), ite(settingID(p, n-1) == id, n-1, -1)))
+
+//@ func (*SettingsFrame).NumSettings :: f -> n
+//@   props C19,C10,C03
+//@   requires f != nil
+//@   assigns nothing
+//@   ensures n == len(f.p) / 6
+
+//@ func (*SettingsFrame).Setting :: f, i -> s
+//@   props C19,C10,C03
+//@   requires f != nil
+//@   requires [C19:setting-index-in-range] 0 <= i && i < len(f.p) / 6
+//@   assigns nothing
+//@   ensures [C19:setting-fields] s.ID == settingID(f.p, i) && s.Val == settingVal(f.p, i)
+
+//@ func (*SettingsFrame).IsAck :: f -> ack
+//@   props C19,C03
+//@   requires f != nil
+//@   assigns nothing
+//@   ensures ack <==> flag(f.FrameHeader.Flags, 1)
+
+//@ func (*SettingsFrame).Value :: f, id -> v, ok
+//@   props C19,C10
+//@   requires f != nil && f.FrameHeader.valid
+//@   assigns nothing
+//@   ensures [C19:value-first-match] ok <==> firstSetting(f.p, id, len(f.p)/6) >= 0
+//@   ensures [C19:value-of-first-match] ok ==> v == settingVal(f.p, firstSetting(f.p, id, len(f.p)/6))
+//@   loop 1 invariant 0 <= i && i <= len(f.p)/6 && firstSetting(f.p, id, i) == -1
+
+//@ func parseSettingsFrame :: fc, fh, countError, p -> f, err
+//@   props C19,C10,C12
+//@   callback countError
+//@   requires fh.valid
+//@   assigns nothing
+//@   ensures [C19:settings-ack-len] flag(fh.Flags, 1) && fh.Length > 0 ==> isConnErr(err, 6)
+//@   ensures [C19:settings-stream] !(flag(fh.Flags, 1) && fh.Length > 0) && fh.StreamID != 0 ==> isConnErr(err, 1)
+//@   ensures [C19:settings-mod6] !(flag(fh.Flags, 1) && fh.Length > 0) && fh.StreamID == 0 && len(p) % 6 != 0 ==> isConnErr(err, 6)
+//@   ensures [C12:settings-window-too-big] !(flag(fh.Flags, 1) && fh.Length > 0) && fh.StreamID == 0 && len(p) % 6 == 0 && firstSetting(p, 4, len(p)/6) >= 0 && settingVal(p, firstSetting(p, 4, len(p)/6)) > 2147483647 ==> isConnErr(err, 3)
+//@   ensures [C19:settings-ok] err == nil ==> isptr(SettingsFrame, f) && unboxptr(SettingsFrame, f) != nil && fresh(unboxptr(SettingsFrame, f)) && val(unboxptr(SettingsFrame, f).FrameHeader) == fh && unboxptr(SettingsFrame, f).p == p && len(p) % 6 == 0
+//@   ensures [C19:error-no-frame] err != nil ==> f == nil
+
+//@ func Setting.Valid :: s -> err
+//@   props C13,C12
+//@   assigns nothing
+//@   ensures [C13:enable-push-range] s.ID == 2 && s.Val != 0 && s.Val != 1 ==> isConnErr(err, 1)
+//@   ensures [C12:window-size-range] s.ID == 4 && s.Val > 2147483647 ==> isConnErr(err, 3)
+//@   ensures [C13:max-frame-size-range] s.ID == 5 && (s.Val < 16384 || s.Val > 16777215) ==> isConnErr(err, 1)
+//@   ensures [C13:connect-protocol-range] s.ID == 8 && s.Val != 0 && s.Val != 1 ==> isConnErr(err, 1)
+//@   ensures [C13:valid-otherwise] !(s.ID == 2 && s.Val != 0 && s.Val != 1) && !(s.ID == 4 && s.Val > 2147483647) && !(s.ID == 5 && (s.Val < 16384 || s.Val > 16777215)) && !(s.ID == 8 && s.Val != 0 && s.Val != 1) ==> err == nil
+
+//@ -- frame order (HEADERS / CONTINUATION contiguity) ----------------------------------------
+//@ -- Frame is a sealed interface (unexported method); every implementation embeds FrameHeader and inherits Header().
+//@ pure func hdrOf(f Frame) FrameHeader = ite(isptr(DataFrame, f), val(unboxptr(DataFrame, f).FrameHeader), ite(isptr(HeadersFrame, f), val(unboxptr(HeadersFrame, f).FrameHeader), ite(isptr(PriorityFrame, f), val(unboxptr(PriorityFrame, f).FrameHeader), ite(isptr(RSTStreamFrame, f), val(unboxptr(RSTStreamFrame, f).FrameHeader), ite(isptr(SettingsFrame, f), val(unboxptr(SettingsFrame, f).FrameHeader), ite(isptr(PushPromiseFrame, f), val(unboxptr(PushPromiseFrame, f).FrameHeader), ite(isptr(PingFrame, f), val(unboxptr(PingFrame, f).FrameHeader), ite(isptr(GoAwayFrame, f), val(unboxptr(GoAwayFrame, f).FrameHeader), ite(isptr(WindowUpdateFrame, f), val(unboxptr(WindowUpdateFrame, f).FrameHeader), ite(isptr(ContinuationFrame, f), val(unboxptr(ContinuationFrame, f).FrameHeader), val(unboxptr(UnknownFrame, f).FrameHeader)))))))))))
+
+//@ func Frame.Header :: f -> h
+//@   trusted
+//@   pure
+//@   ensures h == hdrOf(f)
+
+//@ func (*Framer).connError :: fr, code, reason -> err
+//@   props C19
+//@   requires fr != nil
+//@   assigns fr.errDetail
+//@   ensures [C19:conn-error-code] isConnErr(err, code)
+
+//@ func (*Framer).checkFrameOrder :: fr, f -> err
+//@   props C19,C13
+//@   requires fr != nil && f != nil
+//@   assigns fr.lastFrame, fr.lastHeaderStream, fr.errDetail
+//@   ensures [C19:order-lenient] fr.AllowIllegalReads ==> err == nil
+//@   ensures [C19:order-expect-continuation] !fr.AllowIllegalReads && old(fr.lastHeaderStream) != 0 && (hdrOf(f).Type != 9 || hdrOf(f).StreamID != old(fr.lastHeaderStream)) ==> isConnErr(err, 1)
+//@   ensures [C19:order-stray-continuation] !fr.AllowIllegalReads && old(fr.lastHeaderStream) == 0 && hdrOf(f).Type == 9 ==> isConnErr(err, 1)
+//@   ensures [C19:order-accept] !fr.AllowIllegalReads && ((old(fr.lastHeaderStream) != 0 && hdrOf(f).Type == 9 && hdrOf(f).StreamID == old(fr.lastHeaderStream)) || (old(fr.lastHeaderStream) == 0 && hdrOf(f).Type != 9)) ==> err == nil
+//@   ensures [C19:order-state] err == nil && !fr.AllowIllegalReads ==> fr.lastHeaderStream == ite(hdrOf(f).Type == 1 || hdrOf(f).Type == 9, ite(flag(hdrOf(f).Flags, 4), 0, hdrOf(f).StreamID), old(fr.lastHeaderStream))
+//@   ensures fr.lastFrame == f
